@@ -77,7 +77,7 @@ pub fn check(ls: &LangSet, s: &str, filler: &str) -> Verdict {
 }
 
 pub fn run(ctx: &Ctx) -> Outcome {
-    let n_texts = ctx.n(300_000, 8_000_000);
+    let n_texts = ctx.n(1_500_000, 30_000_000);
     let rep = run_sharded(ctx, |w, nw, rep| {
         let ls = LangSet::new();
         let lex = ls.lexicon("en");
